@@ -218,6 +218,19 @@ func one(k *run.K) {
 	det := math.Abs(a*d - b*cc)
 	M3 := 6*M + 7
 	k.Check("transform", near(at, ta, 1e-9*M3*M3) && near(at, wantA*det, 1e-9*M3*M3), "Area(WithTransform)=%.15g, TransformXY().Area()=%.15g, exact %.15g", at, ta, wantA*det)
+	// a transform that is not affine (what a map projection is): the option must still give the area of the
+	// transformed geometry - the callback has to see the control points themselves, each exactly once per use
+	{
+		p, q := float64(k.Rng.Range(1, 3)), float64(k.Rng.Range(-2, 2))
+		off := 2*M + 16
+		nf := func(xy geom.XY) geom.XY { return geom.XY{X: xy.X + q*xy.Y, Y: xy.Y * (p*xy.X + off) / off} }
+		an := g.Area(geom.WithTransform(nf))
+		tn := g.TransformXY(nf).Area()
+		sn := ccw.Area(geom.WithTransform(nf), geom.SignedArea)
+		tsn := ccw.TransformXY(nf).Area(geom.SignedArea)
+		M4 := 8*M + 16
+		k.Check("transform", near(an, tn, 1e-9*M4*M4) && near(sn, tsn, 1e-9*M4*M4), "non-affine transform: Area(WithTransform)=%.15g but TransformXY().Area()=%.15g; signed %.15g vs %.15g", an, tn, sn, tsn)
+	}
 	// both options together, in either order: the signed area of the transformed geometry
 	sdet := a*d - b*cc
 	s1 := ccw.Area(geom.SignedArea, geom.WithTransform(f))
